@@ -235,8 +235,13 @@ def h_measure_nsite(V, N, symname, fermionic, sites):
     V.check('overall-sign-is-the-canonical-ordering-sign', r.coef == sg)
 
 
+import contracts.mps_values as MV
+from contracts.mps_values import h_env3_refresh, h_overlap_values, h_mpo_values, h_env3_values, h_env_sum_project_values, h_measure_values
+FUNCTIONS = list(FUNCTIONS) + [f_ for f_ in MV.FUNCTIONS if f_ not in FUNCTIONS]
+
+
 def units(tier):
-    U = OA.units_c07(tier) + GM.units(tier)
+    U = OA.units_c07(tier) + GM.units(tier) + MV.units(tier, 'C07')
     th = tier == 'thorough'
     Ns = range(2, (7 if th else 5) + 1)
     for N in Ns:
